@@ -53,7 +53,9 @@ DESCS = ['NE/4', 'Northeast Quarter', 'Lots 1 - 3, S/2NE/4',
          # the same lots / aliquots as above, some of them named twice
          'Lot 3, S/2NE/4, Lots 1 - 3', 'NE/4, NE/4NE/4', 'W/2, W/2']
 ATTRS = ['twprge', 'twp', 'rge', 'sec', 'trs', 'twp_num', 'rge_ew', 'sec_num']
-TRACT_ATTRS = ATTRS + ['desc', 'parse_complete']
+TRACT_ATTRS = ATTRS + ['desc', 'parse_complete', 'source', 'source']
+# source tags are arbitrary hashable identifiers -- strings, tuples, numbers
+SOURCES = [None, None, 'a', ('a',), ('a', 'b'), 0, 'b']
 
 
 def plan(tier, seed):
@@ -155,8 +157,11 @@ def make_elements(rng, pytrs, kind, n):
         if kind == 'tract':
             desc = rng.choice(DESCS)
             parsed = rng.random() < 0.6
-            spec.append({'trs': trs, 'desc': desc, 'parsed': parsed})
-            e = pytrs.Tract(desc, trs=trs, parse_qq=parsed)
+            src = rng.randrange(len(SOURCES))
+            spec.append({'trs': trs, 'desc': desc, 'parsed': parsed,
+                         'source': src})
+            e = pytrs.Tract(desc, trs=trs, parse_qq=parsed,
+                            source=SOURCES[src])
         else:
             spec.append({'trs': trs})
             e = pytrs.TRS(trs)
@@ -172,7 +177,8 @@ def rebuild(spec, pytrs, kind):
             els.append(made[s['same_as']])
             continue
         if kind == 'tract':
-            e = pytrs.Tract(s['desc'], trs=s['trs'], parse_qq=s['parsed'])
+            e = pytrs.Tract(s['desc'], trs=s['trs'], parse_qq=s['parsed'],
+                            source=SOURCES[s.get('source', 0)])
         else:
             e = pytrs.TRS(s['trs'])
         made.append(e)
